@@ -71,7 +71,7 @@ PIN_ROWS = [("你", "ni", 100), ("好", "hao", 90), ("你好", "ni hao", 80), ("
 CJ_ROWS = [("日", "a", 9), ("月", "b", 8), ("明", "ab", 7), ("金", "c", 6), ("木", "d", 5), ("林", "dd", 4), ("森", "ddd", 3), ("水", "e", 2)]
 
 
-def make_full_workspace(d, user_dict=True):
+def make_full_workspace(d, user_dict=True, second_prism=False):
     """a stock-like workspace: luna_pinyin's schema structure (all stock components) over tiny dictionaries"""
     shutil.rmtree(d, ignore_errors=True)
     os.makedirs(d)
@@ -88,6 +88,16 @@ def make_full_workspace(d, user_dict=True):
         s = s.replace("translator:\n  dictionary: vs_pin", "translator:\n  dictionary: vs_pin\n  enable_user_dict: false")
         s = s.replace("  dictionary: vs_cj\n  prefix: 'C:'", "  dictionary: vs_cj\n  enable_user_dict: false\n  prefix: 'C:'")
     open(os.path.join(d, "vs_full.schema.yaml"), "w", encoding="utf-8").write(s)
+    if second_prism:
+        # a second schema on the SAME dictionary with its own prism (no abbreviations in its spelling algebra): the
+        # dictionary component caches tables and prisms per name while some session still uses them
+        s2 = s.replace("schema_id: vs_full", "schema_id: vs_full2")
+        s2 = re.sub(r"\n    - abbrev/[^\n]*", "", s2)
+        s2 = s2.replace("translator:\n  dictionary: vs_pin", "translator:\n  dictionary: vs_pin\n  prism: vs_full2", 1)
+        assert "prism: vs_full2" in s2
+        open(os.path.join(d, "vs_full2.schema.yaml"), "w", encoding="utf-8").write(s2)
+        default = default.replace("  - schema: vs_script\n", "  - schema: vs_script\n  - schema: vs_full2\n")
+        open(os.path.join(d, "default.yaml"), "w", encoding="utf-8").write(default)
     open(os.path.join(d, "vs_script.schema.yaml"), "w").write(sc.schema_yaml("vs_script", sc.SCHEMAS["vs_script"]))
     with open(os.path.join(d, "vs_pin.dict.yaml"), "w", encoding="utf-8") as f:
         f.write("---\nname: vs_pin\nversion: '1'\nsort: by_weight\n...\n\n" + "".join("%s\t%s\t%d\n" % r for r in PIN_ROWS))
